@@ -33,7 +33,19 @@ func init() {
 func c02Docs() []*world.Doc {
 	all := world.BaseDocs()
 	// the common feature set: objects, lists, scalars, enums, aliases, fragments on the concrete type, variables, string/boolean arguments
-	return []*world.Doc{all[0], all[1], all[2], all[3], all[5], all[7], all[8], all[9], all[11], all[12]}
+	return []*world.Doc{all[0], all[1], all[2], all[3], all[5], all[7], all[8], all[9], all[11], all[12], all[13]}
+}
+
+// c02MixDocs: the documents for mixed graphs and precedence probes (the value-typed V objects keep one carrier, a Go struct
+// value, so they take no part in mixing).
+func c02MixDocs() []*world.Doc {
+	var out []*world.Doc
+	for _, d := range c02Docs() {
+		if t := d.Render(world.LOneLine); !strings.Contains(t, " val ") && !strings.Contains(t, " vals ") {
+			out = append(out, d)
+		}
+	}
+	return out
 }
 
 func obsKey(o *world.Obs) string {
@@ -186,9 +198,15 @@ func runC02(c *core.Ctx) {
 	}
 
 	// ---- Part B: every per-node assignment, both mixing modes
-	nodes := graphs[0].Nodes
+	var nodes []*world.Node // the nodes a strategy can be assigned to (the value-typed V nodes and the mutation root keep theirs)
+	for _, n := range graphs[0].Nodes {
+		if n.Type != "V" && n.Type != "Mutation" {
+			nodes = append(nodes, n)
+		}
+	}
+	nodes = append(nodes, graphs[0].Mut) // last: never assigned (the loops below stop one short)
 	var idx int64
-	for di, d := range c02Docs() {
+	for di, d := range c02MixDocs() {
 		text := d.Render(world.LOneLine)
 		for gi, g0 := range graphs {
 			for mode := 0; mode < 2; mode++ {
@@ -245,7 +263,7 @@ func runC02(c *core.Ctx) {
 
 	// ---- Part C: precedence probes
 	if c.Shard == 0 {
-		for _, d := range c02Docs() {
+		for _, d := range c02MixDocs() {
 			text := d.Render(world.LOneLine)
 			for gi, g := range graphs {
 				for probe := 1; probe <= 3; probe++ {
